@@ -92,7 +92,10 @@ pub fn execute(case: &W1Case) -> RunOutcome<W1Out> {
             // triage aid (H3): first applied insertion after which a hard rule is broken, with the operator stack
             let model = sys::monitor(|| model.clone());
             let count = std::rc::Rc::new(std::cell::Cell::new((0u64, false)));
-            vrp_core::verif::set_insertion_observer(Some(std::rc::Rc::new(move |ctx: &vrp_core::construction::heuristics::InsertionContext| {
+            vrp_core::verif::set_insertion_observer(Some(std::rc::Rc::new(move |ctx: &vrp_core::construction::heuristics::InsertionContext, site: vrp_core::verif::InsertionSite| {
+                if site != vrp_core::verif::InsertionSite::Applied {
+                    return;
+                }
                 sys::monitor(|| {
                     let (n, done) = count.get();
                     count.set((n + 1, done));
@@ -323,8 +326,8 @@ impl Scenario for W1Scenario {
 
     fn cases(&self, tier: Tier) -> u64 {
         match tier {
-            Tier::Quick => 6_000,
-            Tier::Thorough => 150_000,
+            Tier::Quick => 30_000,
+            Tier::Thorough => 400_000,
         }
     }
 
